@@ -205,6 +205,9 @@ class Emitter:
         self.labels_needed = set()
         self.ret_ref = False
         cname = fspec['cname']
+        if not hasattr(self, 'fn_decls'):
+            self.fn_decls = {}
+        self.fn_decls[cname] = fd
         ret, ptypes = fn_param_types(fd['type']['qualType'])
         params = [c for c in self.kids(fd) if c['kind'] == 'ParmVarDecl']
         body = [c for c in self.kids(fd) if c['kind'] in ('CompoundStmt', 'CXXTryStmt')]
@@ -422,8 +425,10 @@ class Emitter:
             raise Unsupported('decl kind ' + d['kind'])
         nm = d['name']
         t = d['type']
-        if d.get('storageClass') == 'static' and not self.f.get('allow_static_local'):
+        if d.get('storageClass') == 'static' and not (self.f.get('allow_static_local') or re.match(r'^const\b', self.tstr(d['type']))):
             raise Unsupported('static local ' + nm)
+        if d.get('storageClass') == 'static':
+            self.rules['static_const_local_as_local'] += 1
         self.locals[nm] = t
         ks = self.kids(d)
         ts = self.tstr(t)
@@ -887,6 +892,9 @@ class Emitter:
     def callee_name(self, key, sig, cls):
         """resolve a callee to a C function name through the spec's call table"""
         full = (cls + '::' + key) if cls else key
+        fc = self.f.get('calls', {})
+        if full in fc:
+            return fc[full]
         ent = self.calls.get(full + '|' + sig)
         if ent is None:
             ent = self.calls.get(full)
@@ -894,7 +902,19 @@ class Emitter:
             raise Unsupported('unmodelled call: key=%r sig=%r' % (full, sig))
         return ent
 
-    def args_for(self, callee_sig, args):
+    def default_arg(self, cname, i, callee_sig):
+        d = self.spec.get('default_args', {}).get(cname, {}).get(i)
+        if d is not None:
+            return d
+        fd = getattr(self, 'fn_decls', {}).get(cname)
+        if fd is not None:
+            ps = [c for c in self.kids(fd) if c['kind'] == 'ParmVarDecl']
+            if i < len(ps) and self.kids(ps[i]):
+                self.rules['default_argument_from_callee_decl'] += 1
+                return self.expr(self.kids(ps[i])[0])
+        raise Unsupported('defaulted argument %d of call to %s (%s) not materialised by clang; give default_args' % (i, cname, callee_sig))
+
+    def args_for(self, callee_sig, args, cname=None):
         """emit args; reference parameters receive addresses"""
         try:
             _, ptypes = fn_param_types(callee_sig)
@@ -903,7 +923,8 @@ class Emitter:
         out = []
         for i, a in enumerate(args):
             if a.get('kind') == 'CXXDefaultArgExpr' and not self.kids(a):
-                raise Unsupported('defaulted argument %d of call with type %s not materialised by clang' % (i, callee_sig))
+                out.append(self.default_arg(cname, i, callee_sig))
+                continue
             pt = ptypes[i] if i < len(ptypes) else None
             if pt and pt != '...' and pt.strip().endswith('&'):
                 out.append(self.lvalue_addr(a))
@@ -962,7 +983,7 @@ class Emitter:
             if h:
                 return h(self, n, args, stmt)
             cname = self.callee_name(r['name'], sig, None)
-            return self.finish_call(cname, self.args_for(sig, args), n, stmt, sig)
+            return self.finish_call(cname, self.args_for(sig, args, cname), n, stmt, sig)
         if callee['kind'] == 'MemberExpr':
             return self.e_CXXMemberCallExpr(n, stmt)
         raise Unsupported('call through ' + callee['kind'])
@@ -995,7 +1016,7 @@ class Emitter:
             if base.get('valueCategory') == 'prvalue' or base['kind'] in ('MaterializeTemporaryExpr',):
                 selfarg = self.lvalue_addr(base)
         if sig:
-            argl = self.args_for(sig, args)
+            argl = self.args_for(sig, args, cname)
         else:
             argl = []
             for a in args:
@@ -1020,13 +1041,13 @@ class Emitter:
                 return h(self, n, args, stmt)
             cname = self.callee_name(nm, sig, cls)
             selfarg = self.lvalue_addr(args[0])
-            argl = [selfarg] + self.args_for(sig, args[1:])
+            argl = [selfarg] + self.args_for(sig, args[1:], cname)
         else:
             h = self.spec.get('call_handlers', {}).get(nm + '|' + sig) or self.spec.get('call_handlers', {}).get(nm)
             if h:
                 return h(self, n, args, stmt)
             cname = self.callee_name(nm, sig, None)
-            argl = self.args_for(sig, args)
+            argl = self.args_for(sig, args, cname)
         return self.finish_call(cname, argl, n, stmt, sig)
 
     def construct_into(self, ce, target, t):
@@ -1051,7 +1072,7 @@ class Emitter:
         ent = self.calls.get(key + '|' + ctype) or self.calls.get(key)
         if ent is None:
             raise Unsupported('unmodelled constructor: key=%r sig=%r' % (key, ctype))
-        argl = self.args_for(ctype, args)
+        argl = self.args_for(ctype, args, ent)
         s = self.finish_call(ent, ['&' + target] + argl, {'type': {'qualType': 'void'}}, True, 'void ' + ctype[ctype.index('('):])
         return [s + ';'] if s else []
 
